@@ -84,8 +84,27 @@ fn run_case(f: &[String]) -> String {
     std::fs::create_dir(bp.join("bin")).unwrap();
     // executable under the requested name
     let name = exe.strip_prefix("other:").unwrap_or(exe);
-    let exe_path = bp.join("bin").join(name);
-    if link == "copy" { std::fs::copy(tbp_path(), &exe_path).unwrap(); } else { std::os::unix::fs::symlink(tbp_path(), &exe_path).unwrap(); }
+    // executable LAYOUT on disk (`disk`) and the way it is invoked (`invoke`); only the invoked name may decide the phase.
+    //   disk: sym        bin/<name> -> the harness's `tbp` (a file with a neutral name elsewhere)
+    //         copy       bin/<name> is a separate copy
+    //         symn       real file bin/main.bin; detect, build and <name> are relative symlinks to it
+    //         realbuild  real file bin/build; detect and <name> are relative symlinks to it (the packaged layout)
+    //         realdetect real file bin/detect; build and <name> are relative symlinks to it
+    //   invoke: abs (absolute path) | rel (../bp/bin/<name> from the app dir) | dotdot (../bp/./bin/../bin/<name>) |
+    //           path (bare name found through $PATH) | arg0 (exec of the real file with argv[0] = <bp>/bin/<name>)
+    let (disk, invoke) = link.split_once('+').unwrap_or((link.as_str(), "abs"));
+    let bin = bp.join("bin");
+    let exe_path = bin.join(name);
+    let place = |dst: &Path| { if std::fs::hard_link(tbp_path(), dst).is_err() { std::fs::copy(tbp_path(), dst).unwrap(); } };
+    let link_to = |real: &str, names: &[&str]| { for n in names { if *n != real && std::fs::symlink_metadata(bin.join(n)).is_err() { std::os::unix::fs::symlink(real, bin.join(n)).unwrap(); } } };
+    let real_file: PathBuf = match disk {
+        "sym" => { std::os::unix::fs::symlink(tbp_path(), &exe_path).unwrap(); tbp_path() }
+        "copy" => { std::fs::copy(tbp_path(), &exe_path).unwrap(); exe_path.clone() }
+        "symn" => { place(&bin.join("main.bin")); link_to("main.bin", &["detect", "build", name]); bin.join("main.bin") }
+        "realbuild" => { place(&bin.join("build")); link_to("build", &["detect", name]); bin.join("build") }
+        "realdetect" => { place(&bin.join("detect")); link_to("detect", &["build", name]); bin.join("detect") }
+        _ => return "bad-fields".into(),
+    };
     // buildpack.toml
     let rest_ok = "[buildpack]\nid = \"tbp/c05\"\nversion = \"0.0.1\"\n";
     let rest_bad = "[buildpack]\nid = \"tbp/c05\"\n"; // version missing
@@ -122,14 +141,25 @@ fn run_case(f: &[String]) -> String {
     }
     // arguments
     let s = |p: &Path| p.to_str().unwrap().to_string();
-    let all_args: Vec<String> = if name == "build" { vec![s(&layers), s(&plat), s(&bpplan), "extra".into()] } else { vec![s(&plat), s(&plan_path), "extra1".into(), "extra2".into()] };
-    let mut cmd = Command::new(&exe_path);
+    // a wrongly named executable gets the argument list of the phase its argument count would fit (so a dispatch into
+    // either phase by mistake would find valid arguments)
+    let all_args: Vec<String> = if name == "build" || (name != "detect" && nargs == 3) { vec![s(&layers), s(&plat), s(&bpplan), "extra".into()] } else { vec![s(&plat), s(&plan_path), "extra1".into(), "extra2".into()] };
+    let mut cmd = match invoke {
+        "abs" => Command::new(&exe_path),
+        "rel" => Command::new(format!("../bp/bin/{name}")),
+        "dotdot" => Command::new(format!("../bp/./bin/../bin/{name}")),
+        "path" => Command::new(name),
+        "arg0" => { let mut c = Command::new(&real_file); c.arg0(&exe_path); c }
+        _ => return "bad-fields".into(),
+    };
     cmd.args(all_args.iter().take(nargs)).env_clear().current_dir(&app).stdin(Stdio::null()).stdout(Stdio::null()).stderr(Stdio::null());
     let names = ["CNB_BUILDPACK_DIR", "CNB_TARGET_OS", "CNB_TARGET_ARCH", "CNB_TARGET_ARCH_VARIANT", "CNB_TARGET_DISTRO_NAME", "CNB_TARGET_DISTRO_VERSION"];
     let values = [s(&bp), "linux".into(), "amd64".into(), "v3".into(), "ubuntu".into(), "24.04".into()];
     // '1' = set to a usual value, 'e' = set to the empty string (still present), '0' = unset
     for k in 0..6 { if vars[k] == b'1' { cmd.env(names[k], &values[k]); } else if vars[k] == b'e' && k > 0 { cmd.env(names[k], ""); } }
     cmd.env("TBP_OUT", &out).env("TBP_DETECT", dbeh).env("TBP_BUILD", bbeh);
+    if invoke == "path" { cmd.env("PATH", &bin); }
+    if c[0] == "gone" && (invoke == "rel" || invoke == "dotdot") { return "bad-fields".into(); }
     if c[0] == "gone" {
         // the child removes its own working directory just before exec: getcwd fails in the runtime
         let appc = app.clone();
@@ -218,6 +248,13 @@ fn generate(tier: &str, seed: u64, emit: &mut dyn FnMut(Case)) {
     for exe in EXES { for desc in ["api:0.10:ok", "api:0.9:ok", "nofile"] { for nargs in [2, 3] {
         emit(mk("copy", exe, nargs, desc, "111111", "ok/ok/ok", "passplan", rep_b, "a/f/a/afa/faf", "copy"));
     } } }
+    // A5. executable layout x way of invocation: whatever the file on disk is called and however it is reached, only the
+    //     invoked name decides (wrong names incl. the packaged layout where the real file is called build / detect)
+    for exe in ["detect", "build", "other", "other:release"] { for disk in ["sym", "copy", "symn", "realbuild", "realdetect"] { for inv in ["abs", "rel", "dotdot", "path", "arg0"] {
+        for (desc, nargs) in [("api:0.10:ok", 2), ("api:0.10:ok", 3), ("api:0.9:ok", 3)] {
+            emit(mk("layout", exe, nargs, desc, "111111", "ok/ok/ok", "passplan", rep_b, "f/f/v/fff/fff", &format!("{disk}+{inv}")));
+        }
+    } } }
     // B1. all gates open: detect behaviours x pre-existing plan file x optional variable x platform
     for dbeh in DBEHS { for pp in ["a", "f", "d"] { for vars in ["111111", "111011"] { for plat in ["ok", "noenv", "bad"] { for descr in ["api:0.10:ok", "api:0.10:bad"] {
         emit(mk("detect", "detect", 2, descr, vars, &format!("ok/{plat}/ok"), dbeh, "err", &format!("{pp}/a/a/aaa/aaa"), "sym"));
@@ -269,7 +306,7 @@ fn generate(tier: &str, seed: u64, emit: &mut dyn FnMut(Case)) {
     let n_c = if thorough { 20000 } else { 1200 };
     for idx in 0..n_c {
         let mut r = Rng::for_case(seed ^ 0xC05, idx);
-        let exe = *r.pick(&["detect", "detect", "build", "build", "build", "other"]);
+        let exe = *r.pick(&["detect", "detect", "build", "build", "build", "other", "other:release", "other:build2"]);
         let nargs = if r.chance(3, 4) { right_args(exe) } else { r.below(5) as usize };
         let desc = if r.chance(3, 4) { "api:0.10:ok" } else { *r.pick(DESCS) };
         let vars: String = (0..6).map(|_| if r.chance(9, 10) { '1' } else { '0' }).collect();
@@ -280,7 +317,9 @@ fn generate(tier: &str, seed: u64, emit: &mut dyn FnMut(Case)) {
         let n = r.below(6) as usize;
         let it: Vec<&str> = (0..n).map(|_| *r.pick(&items)).collect();
         let bbeh = match r.below(8) { 0 => "err".to_string(), 1 => "layererr".to_string(), _ => format!("ok:{}", it.join(",")) };
-        emit(mk("rnd", exe, nargs, desc, &vars, &ctx, *r.pick(DBEHS), &bbeh, &pre, "sym"));
+        let disk = *r.pick(&["sym", "sym", "symn", "realbuild", "realdetect"]);
+        let inv = if ctx.starts_with("gone") { *r.pick(&["abs", "path", "arg0"]) } else { *r.pick(&["abs", "abs", "rel", "dotdot", "path", "arg0"]) };
+        emit(mk("rnd", exe, nargs, desc, &vars, &ctx, *r.pick(DBEHS), &bbeh, &pre, &format!("{disk}+{inv}")));
     }
 }
 
